@@ -195,6 +195,18 @@ func runC22(c *eng.Ctx) {
 		c.Ob("ALIAS-sealed", eng.FuncName(fn)+" copies", okCopy, fn.Pos(), "copiedBytes writes the bytes into a buffer of its own (bytes.Buffer.Write copies) instead of wrapping the given memory")
 	}
 	c.Expect("ALIAS-sealed", 6)
+	// a subscriber resumes from the timestamp of the last event it received; the log entry is positioned by the
+	// timestamp handed to AddToBuffer: both are the event's TsNs
+	if fn := c.NeedFunc("weed/filer", "(*Filer).logMetaEvent"); fn != nil {
+		adds := eng.Find(fn, eng.PlainCallTo("log_buffer.LogBuffer).AddToBuffer"))
+		if len(adds) == 0 {
+			c.Undecided("SIB-exclusive-resume", eng.FuncName(fn), fn.Pos(), "AddToBuffer call not found")
+		}
+		for i, in := range adds {
+			c.Ob("SIB-exclusive-resume", fmt.Sprintf("%s log-time-is-event-time#%d", eng.FuncName(fn), i), eng.IsField(eng.Unwrap(eng.Arg(in.(ssa.CallInstruction), 2)), "SubscribeMetadataResponse.TsNs"), in.Pos(),
+				"the log entry is stored under the timestamp that the event itself carries to subscribers")
+		}
+	}
 
 	// a buffer that is only kept in memory (no flush function) records what it dropped from the current buffer as
 	// flushed: that is what lets a reader behind the retained buffers learn that it must resume elsewhere
